@@ -315,6 +315,13 @@ func (se *symEval) run(b *ssa.BasicBlock, start int, prev *ssa.BasicBlock, env, 
 					}
 				}
 			}
+			// a test of an error value (the result of a check that does not change the text): both outcomes
+			// are followed with the same state; the failing one ends in an error return, which is not a code path
+			if v, _, isNil := nilTest(t.Cond); isNil && isErrorType(v.Type()) {
+				se.run(b.Succs[0], 0, b, copyEnv(env), copyEnv(cells), copyAssume(assume))
+				se.run(b.Succs[1], 0, b, copyEnv(env), copyEnv(cells), copyAssume(assume))
+				return
+			}
 			se.paths = append(se.paths, symPath{assume: assume, why: "a branch the engine cannot decide: " + se.e.P.Pos(t.Cond.Pos())})
 			return
 		default:
